@@ -63,6 +63,7 @@ type report struct {
 	known      []string
 	instances  int
 	lines      []string
+	canaries   []map[string]any
 }
 
 func buildReport(ck *Checker, dis *Discharger, results []*OblResult, prop, tier string, wall, gen float64, verbose bool) *report {
@@ -171,6 +172,9 @@ func buildReport(ck *Checker, dis *Discharger, results []*OblResult, prop, tier 
 
 func writeReplay(rep *report, a *aggObl) string {
 	dir := filepath.Join(verifDir, "replays", rep.prop)
+	if rd := os.Getenv("GOVC_REPLAY_DIR"); rd != "" {
+		dir = filepath.Join(rd, rep.prop)
+	}
 	os.MkdirAll(dir, 0o755)
 	p := filepath.Join(dir, sanitize(a.Name)+".json")
 	m := map[string]any{
@@ -278,6 +282,20 @@ func writeEvidence(rep *report) {
 		"tool_limits":              rep.ck.toolErrs,
 		"known_findings":           rep.known,
 		"contract_files":           rep.ck.C.Files,
+	}
+	if rep.tier == "thorough" {
+		ev.Coverage["cross_checked_by_other_solvers"] = rep.dis.Cross
+		ev.Coverage["mutation_canaries"] = rep.canaries
+		caught, applied := 0, 0
+		for _, c := range rep.canaries {
+			if a, _ := c["applied"].(bool); a {
+				applied++
+			}
+			if k, _ := c["caught"].(bool); k {
+				caught++
+			}
+		}
+		ev.Coverage["mutation_canaries_caught"] = fmt.Sprintf("%d of %d applicable", caught, applied)
 	}
 	ev.Assumptions = append(ev.Assumptions, rep.ck.C.Assumptions...)
 	ev.Assumptions = append(ev.Assumptions, abstr...)
